@@ -144,16 +144,16 @@ _COND = dict(
     note="symbolic Schnorr/SHA-256; encoding/json trusted; see evidence.assumptions and TRUSTED.md", design_ref="DESIGN.md §5 C12/C13")
 _MINT_NOTE = "symbolic blind signatures (C10 has the algebra); SQLite calls atomic+durable; scripted Lightning client; model tied to the code by differential execution of random histories through the real Mint on SQLite; see evidence.assumptions and TRUSTED.md"
 LEVEL_TEXT = {
-    'C01': dict(text="Coq theorems over the mint state-machine model (every Mint method as a program over storage/Lightning calls): key invariants of the spent/pending/signature tables after every history of requests, injected storage faults, crashes at any call and arbitrary interleavings; spent is append-only; Swap/Melt reject every represented secret and change nothing; tied to /repo by differential execution of histories with replays of consumed and locked secrets", note=_MINT_NOTE),
-    'C02': dict(text="Coq theorems: swap outputs + input fees <= inputs (true sums, uint64 wrap written into the model), mint outputs <= quote amount, melt burns >= amount + fee reserve + input fees, fee limit handed to the backend = fee reserve; tied to /repo by differential execution of honest and adversarial histories with a conservation monitor", note=_MINT_NOTE),
+    'C01': dict(text="Coq theorems over the mint state-machine model (every Mint method as a program over storage/Lightning calls): key invariants of the spent/pending/signature tables after every history of requests, injected storage faults, crashes at any call and arbitrary interleavings; spent is append-only; Swap/Melt reject every represented secret and change nothing; over all sequential histories the consumed secrets are pairwise distinct; for any concurrent batch and schedule two requests consuming one secret never both succeed, and batches of swaps never issue more than they redeem at any point of any schedule; tied to /repo by differential execution of histories with replays of consumed and locked secrets", note=_MINT_NOTE),
+    'C02': dict(text="Coq theorems: over whole histories - sequential, with requests cut or hit by storage errors anywhere (all but the three that settle melts), with concurrent swap batches, under operator reconfiguration - issued ecash + Lightning outflow <= redeemed + what the backend reports received (ledger form: internal settlements are not inflow); per request: swap outputs + input fees <= inputs (true sums, uint64 wrap written into the model), mint outputs <= quote amount, melt burns >= amount + fee reserve + input fees, fee limit handed to the backend = fee reserve; tied to /repo by differential execution of honest and adversarial histories with a conservation monitor", note=_MINT_NOTE),
     'C03': dict(text="Coq theorems on the mint-quote machine (issuance needs a paid/settled quote, at most the quoted amount, marks ISSUED, refused afterwards, NUT-20 signature required, the watcher only moves UNPAID->PAID); tied to /repo by differential execution incl. late notifications and tampered signatures", note=_MINT_NOTE),
     'C05': dict(text="Coq theorems characterising MeltTokens and the poll by the backend's answers (locked while possible, spent iff success with the backend's preimage, released only on failed/not-found, ambiguous answers are no-ops); tied to /repo by differential execution against scripted backends", note=_MINT_NOTE),
     'C06': dict(text="Coq theorems: a refused Swap/MintTokens/MeltTokens leaves the store unchanged (up to the lazily recorded payment of a settled quote) and no model program reaches a Panic leaf on the paths proved; tied to /repo by differential execution with rejection causes compared and a state-snapshot monitor on every refusal", note=_MINT_NOTE),
-    'C07': dict(text="Coq theorems that hold at EVERY crash cut and under EVERY injected storage error: key invariants of all tables, spent and signature tables append-only (spent stays refused, stored signatures stay restorable), footprints (no request but a rotation/restart touches keysets; swaps/checks never touch quotes; only issuing operations add signatures); the cuts at which the faithful model inflates or strands value are exhibited as computed witnesses (refutations of atomicity and of one safety clause) and replayed on the real mint; tied to /repo by running every operation kind with the process killed before each storage/Lightning call and with an error injected at each storage call, model and code agreeing on all of them", note=_MINT_NOTE + '; SQLite durability below call granularity assumed (partial)'),
+    'C07': dict(text="Coq theorems that hold at EVERY crash cut and under EVERY injected storage error: key invariants of all tables, spent and signature tables append-only (spent stays refused, stored signatures stay restorable), footprints (no request but a rotation/restart touches keysets; swaps/checks never touch quotes; only issuing operations add signatures), the exact sets of stores reachable by cutting a Swap or a MintTokens anywhere, and the no-inflation inequalities (value form, ledger form, balance form) along every history in which any request except MeltTokens, melt-quote poll and state check is cut or hit by storage errors anywhere and swaps run concurrently; the cuts at which the faithful model inflates or strands value are exhibited as computed witnesses (refutations of atomicity and of one safety clause) and replayed on the real mint; tied to /repo by running every operation kind with the process killed before each storage/Lightning call and with an error injected at each storage call, model and code agreeing on all of them", note=_MINT_NOTE + '; SQLite durability below call granularity assumed (partial)'),
     'C09': dict(text="Coq theorems on rotation and reload (one active keyset, index+1, old rows kept, signatures only on the active keyset, per-keyset fees) plus the bit-level keyset derivation of C11; tied to /repo by differential execution of restart/rotation histories", note=_MINT_NOTE),
     'C14': dict(text="Coq theorems: hex/base64 round trips, V3/V4 token round trip (modulo the marshaler contract), amount = sum, DecodeToken and all accessors total (no Panic leaf reachable); tied to /repo by differential execution of the real DecodeToken/NewToken/Serialize on generated tokens and arbitrary strings", note="encoding/json and cbor modelled by contract (exercised for real by the harness); see TRUSTED.md", design_ref="DESIGN.md §5 C14"),
     'C15': dict(text="Coq theorems: RestoreSignatures returns exactly the stored rows for the queried B_s in request order and finds every signature ever returned, after any history; ProofsStateCheck reports the table state of each Y in request order; spent stays SPENT; tied to /repo by differential execution with mixed known/unknown/repeated queries", note=_MINT_NOTE),
-    'C16': dict(text="Coq theorems: the per-keyset views sum to the tables, TotalBalance = issued - redeemed without wrap under the stated bounds, each limit refuses as specified (incl. amounts >= 2^63 through the SQL driver rule), info.disabled iff balance >= max; tied to /repo by differential execution under limit configurations", note=_MINT_NOTE),
+    'C16': dict(text="Coq theorems: redeemed + locked <= issued in every state reached by a history of requests, incl. cut and faulted ones, under the unforgeability reading of the symbolic signatures, hence the reported balance is exact and non-negative; the per-keyset views sum to the tables, TotalBalance = issued - redeemed without wrap under the stated bounds, each limit refuses as specified (incl. amounts >= 2^63 through the SQL driver rule), info.disabled iff balance >= max; tied to /repo by differential execution under limit configurations", note=_MINT_NOTE),
     'C04': dict(text="Coq theorems: the per-proof gate accepts exactly the proofs with a known keyset, an amount that is a key of it, a secret within the length cap, a satisfied spending condition and C = the signature term for exactly (keyset, amount, secret); every accepted Swap input is such a proof; the algebraic half (verify k Y C <-> C = k.Y, another key never verifies) is C10; tied to /repo by presenting every single-field mutation of valid proofs to Swap and Melt", note=_MINT_NOTE),
     'C10': dict(text="Coq theorems over an abstract prime-order group (BDHKE round trip, independence of r, wrong key/secret/point rejected, DLEQ completeness for mint and wallet, soundness with a unique challenge, single-field tamper theorems as hash-collision reductions), the same definitions instantiated at an executable secp256k1 and compared bit for bit with crypto/bdhke.go and nut12", note="group laws assumed for secp256k1 (not proved here); HashE arbitrary; see TRUSTED.md", design_ref="DESIGN.md §5 C10"),
     'C11': dict(text="Coq theorems: implementation-shaped models of hash_to_curve, DeriveKeysetId and the NUT-13 derivation equal declarative specifications transcribed from NUT-00/02/13 and BIP32, for all inputs; executable SHA-256/HMAC-SHA512/secp256k1/BIP32 in Coq compared bit for bit with the Go functions", note="primitives identified with SHA-2/secp256k1 by correspondence and test vectors (partial); see TRUSTED.md", design_ref="DESIGN.md §5 C11"),
